@@ -34,15 +34,16 @@ Definition is_sign (t : token) : bool :=
 Definition tstep (st : tstate) (t : token) : option tstate :=
   let '(d, a, p, sg) := st in
   match a with
-  | WBlock => if kind_is t TComment then Some (d, WBlock, false, false)
-              else if kind_is t TEndBlockComment then Some (d, WFree, false, false) else None
+  | WBlock => if kind_is t TComment then Some (d, WBlock, p, false)
+              else if kind_is t TEndBlockComment then Some (d, WFree, p, false) else None
   | WRaw => if kind_is t TBacktickString then Some (d, WFree, false, false) else None
   | WFree =>
       match t_kind t with
       | TLParen | TLSquare | TLCurly => Some (d + 1, WFree, false, false)
       | TRParen | TRSquare | TRCurly => Some (d - 1, WFree, false, false)
       | TQuote | TCaret | TTilde | TTildeAt => Some (d, WFree, true, false)
-      | TBeginBlockComment => Some (d, WBlock, false, false)
+      | TBeginBlockComment => Some (d, WBlock, p, false)   (* a reader prefix keeps waiting across comments *)
+      | TComment => Some (d, WFree, p, false)
       | TBeginBacktickString => Some (d, WRaw, false, false)
       | TEndBlockComment => None
       | _ => Some (d, WFree, false, is_sign t)
